@@ -194,7 +194,8 @@ def main():
     cases = json.load(sys.stdin)['cases']
     for c in cases:
         rl = c.get('rl')
-        out, name = exec_case(M, dump, c['text'], None if rl is None else rl + offset)
+        # offset < 0: the implementation no longer spends one frame per use edge; the limit is then left alone
+        out, name = exec_case(M, dump, c['text'], None if rl is None or offset < 0 else rl + offset)
         print(' '.join(map(str, out)) + ((' ' + name) if name else ''))
     sys.stdout.flush()
 
